@@ -777,13 +777,13 @@ def warm(ks, styles=("miss",), thread=False):
 # `thread` the k searches are made by a second thread sharing the finder
 PROPERTIES["C16"]["jobs"] += [
     ss("ln", warm(range(30, 65)) + "," + warm(range(45, 53), ("hit",)), RESULT, "ss/LN/warmed finders (k earlier searches on the same Finder)", ["--lengths", "33,40,65"], tiers=("quick",)),
-    ss("ln", warm(range(0, 131), ("miss", "hit")), RESULT, "ss/LN/warmed finders (k earlier searches on the same Finder)", ["--lengths", "33,40,47,65,100"], tiers=("thorough",)),
+    ss("ln", warm(range(0, 101)) + "," + warm(range(30, 71), ("hit",)), RESULT, "ss/LN/warmed finders (k earlier searches on the same Finder)", ["--lengths", "33,40,47,65,100"], tiers=("thorough",)),
 ]
 PROPERTIES["C15"]["jobs"] += [
     ss("ln", warm(range(40, 53), thread=True), RESULT, "ss/LN/finder warmed by another thread", ["--lengths", "40"], tiers=("quick",)),
     ss("ln", warm(range(30, 71), ("miss", "hit"), thread=True), RESULT, "ss/LN/finder warmed by another thread", ["--lengths", "33,40,65"], tiers=("thorough",)),
 ]
-PROPERTIES["C16"]["explanation"] += " History LENGTH as a dimension: over the long-needle space LN, a fresh Finder first makes k searches of a near miss (or of the needle itself) and then the search under test, for every k in 30..=64 (thorough 0..=130) - bracketing the crate's adaptive threshold of 50 prefilter calls; the answer must be the fresh finder's."
+PROPERTIES["C16"]["explanation"] += " History LENGTH as a dimension: over the long-needle space LN, a fresh Finder first makes k searches of a near miss (or of the needle itself) and then the search under test, for every k in 30..=64 (thorough 0..=100) - bracketing the crate's adaptive threshold of 50 prefilter calls; the answer must be the fresh finder's."
 PROPERTIES["C15"]["explanation"] += " Call-granularity sharing: a Finder shared by reference with a second thread that makes k searches (k = 40..=52; thorough 30..=70) before the first thread searches - over the LN space; every answer must equal the answer in isolation (state that a change hoists into the shared Finder shows here even when it needs dozens of earlier calls, which no loom program reaches)."
 
 
@@ -866,6 +866,20 @@ PROPERTIES["C17"]["explanation"] += " The history engines carry the probe too: e
 for pid, op in (("C01", "find"), ("C02", "rfind"), ("C07", "count")):
     PROPERTIES[pid]["jobs"] += [bs("huge", op, RESULT, name="bs/huge/%s (1..2 MiB at page-aligned and page-straddling starts)" % op)]
     PROPERTIES[pid]["explanation"] += " `huge`: haystacks of 2^20-1, 2^20, 2^20+4097, 2^21+33 bytes (thorough: also 4 and 16 MiB) starting 0, 1, 2048, 4064, 4095 bytes past a page boundary, with no match, one match at the first / last bytes and around the first and last page boundary, and pairs."
+
+
+# needle / filler VALUE assignments on long haystacks (after seeded change
+# R8A: a signed byte minimum in the AVX2 unrolled loop is wrong only when
+# needle and filler differ in the top bit, and only from 128 bytes on)
+PALETTES = ["80,01,7f,00", "7f,ff,00,80", "ff,80,e1,61", "0a,61,20,ff"]
+for pid, op in (("C01", "find"), ("C02", "rfind"), ("C07", "count")):
+    for pal in PALETTES:
+        PROPERTIES[pid]["jobs"] += [
+            bs("long-single", op, RESULT, name="bs/long-single/%s [needles,other = %s]" % (op, pal), extra=["--subjects", "swar,sse2,avx2,top", "--palette", pal, "--aligns", "9"], tiers=("quick",)),
+            bs("long-single", op, RESULT, name="bs/long-single/%s [needles,other = %s]" % (op, pal), extra=["--subjects", "swar,sse2,avx2,top", "--palette", pal], tiers=("thorough",)),
+        ]
+    PROPERTIES[pid]["jobs"] += [bs("huge", op, RESULT, name="bs/huge/%s [needles,other = 80,01,7f,00]" % op, extra=["--palette", "80,01,7f,00"])]
+    PROPERTIES[pid]["explanation"] += " The length-threshold space `long-single` is repeated under four more assignments of byte VALUES to the roles (needle >= 0x80 in zero / ASCII filler, needle < 0x80 in filler >= 0x80, needle 0x7F against 0x80): value-dependent code paths that only exist from some length on."
 
 HOOK_COMMITS = ["ffdf165", "556bbde", "0f24165", "8fa21ee"]
 
